@@ -1316,3 +1316,38 @@ theorem durationInYear_spec (d : Dur) (ts : TS) (hd : d.Canon) (hr : InCal d.val
   · rw [hsub.2, hsv]; omega
 
 end Hifi.Cal
+
+namespace Hifi.Cal
+open Hifi Spec
+
+/-- the rejection direction needs no restriction on hour = 24 / nanosecond = 10⁹ (which the property leaves
+    open only when everything else is fine): whatever the specification requires to be rejected — in particular
+    second = 60 at 24:59 of a leap-second day — the validity test rejects -/
+theorem validCore_rejects (y mo d h mi s ns : Int)
+    (hmo : 0 ≤ mo) (hd : 0 ≤ d) (hh : 0 ≤ h) (hmi : 0 ≤ mi) (hs : 0 ≤ s) (hns : 0 ≤ ns)
+    (hD10 : Cal.d10class y mo d = false)
+    (hrej : mustReject iersLeapDates ⟨y, mo, d⟩ h mi s ns = true) :
+    Cal.isGregorianValidCore y mo d h mi s ns = false := by
+  have hdate := dateOK_iff y mo d hmo hd hD10
+  have hnps : Gen.NANOSECONDS_PER_SECOND = 1000000000 := rfl
+  unfold Cal.isGregorianValidCore
+  unfold mustReject at hrej
+  rw [hnps]
+  by_cases hv : validDate ⟨y, mo, d⟩ = true
+  · have hm := maxSeconds_eq y mo d h mi hv
+    obtain ⟨hd1, hd2⟩ := hdate.mpr hv
+    rw [hm, if_neg hd2]
+    rw [hv] at hrej
+    generalize iersLeapDates.contains (nextDay ⟨y, mo, d⟩) = b at hrej ⊢
+    cases b <;> simp at hrej ⊢ <;> omega
+  · have hnd := fun x => hv (hdate.mp x)
+    by_cases c1 : mo = 0 ∨ mo > 12 ∨ d = 0 ∨ d > 31 ∨ h > 24 ∨ mi > 59 ∨ s > Cal.maxSeconds y mo d h mi
+        ∨ ns > 1000000000
+    · rw [if_pos c1]
+    · rw [if_neg c1]
+      by_cases c2 : d > Cal.usualDaysPerMonth mo ∧ (mo ≠ 2 ∨ Cal.isLeapYear y = false)
+      · rw [if_pos c2]
+      · exfalso; apply hnd
+        exact ⟨fun x => c1 (by omega), c2⟩
+
+end Hifi.Cal
